@@ -1,5 +1,11 @@
 \* open-ended date range queries on the corpus holding timestamps beyond the
 \* sortable images of -Inf/+Inf: judged in a run of their own (open finding)
+CONSTANTS
+  B = 16
+  L = 16
+  G = 7
+  ShiftStart = 32
+  FE = 11
 SPECIFICATION Spec
 CHECK_DEADLOCK FALSE
 INVARIANTS QueryExact
